@@ -4,9 +4,11 @@
      P<tag> C<tag>,<tag>.. F<f> S<f>:<slot> G<f>:<g> A<slot> B<g> W<f> Z<ms> z<ms>:<slot>
      T<slot>:<ms>:<slot'> M E U      simple statements
      Y  R  L<n>( simple ... )        yield, return, loop
+     @ <structured statement>        blocks, if, for, while, continue, break, ... (see parse_b)
    modes (argv.(1)):
      trace  : the CB_VERIF_SCHED_TRACE lines ("CBV ...") and the program's own lines ("P n") in
-              the order the model produces them; ghost lines start with '#'; then END
+              the order the model produces them; ghost lines start with '#' (#TRUNC: only the events
+              of the first print_cap machine steps were printed); then END
      states : the distinct abstract scheduler states visited (queue | exec | status per task),
               each followed by the result of re-checking the proved invariants on it; then END *)
 open C15_model
@@ -40,9 +42,55 @@ let simple_of tok =
   | 'U' -> XRunAll
   | _ -> failwith ("bad statement " ^ tok)
 
+(* structured statements (coq/C15/Body.v).  Words:
+     cont brk yld ret | set <v> <c> | inc <v> | if <cond> <stmt> [else <stmt>] | { <stmt>* } |
+     for <v> <n> <stmt> | whl <cond> <stmt> | call{ <stmt>* } | <simple statement token>
+   cond:  true | false | eq <v> <c> | lt <v> <c> | mod <v> <m> <r> | not <cond>
+   node ids (blocks, loops, calls) are numbered in pre-order per case *)
+let node_ctr = ref 0
+let fresh () = incr node_ctr; nat_of_int !node_ctr
+let n_of w = nat_of_int (int_of_string w)
+
+let rec parse_cond ws = match ws with
+  | "true" :: r -> (CTrue, r)
+  | "false" :: r -> (CFalse, r)
+  | "eq" :: v :: c :: r -> (CEq (n_of v, n_of c), r)
+  | "lt" :: v :: c :: r -> (CLt (n_of v, n_of c), r)
+  | "mod" :: v :: m :: k :: r -> (CMod (n_of v, n_of m, n_of k), r)
+  | "not" :: r -> let (c, r') = parse_cond r in (CNot c, r')
+  | _ -> failwith "bad condition"
+
+let rec parse_b ws = match ws with
+  | "cont" :: r -> (BContinue, r)
+  | "brk" :: r -> (BBreak, r)
+  | "yld" :: r -> (BYield, r)
+  | "ret" :: r -> (BReturn, r)
+  | "set" :: v :: c :: r -> (BSet (n_of v, n_of c), r)
+  | "inc" :: v :: r -> (BInc (n_of v), r)
+  | "if" :: r ->
+      let (c, r1) = parse_cond r in
+      let (t, r2) = parse_b r1 in
+      (match r2 with
+       | "else" :: r3 -> let (e, r4) = parse_b r3 in (BIf (c, t, Some e), r4)
+       | _ -> (BIf (c, t, None), r2))
+  | "{" :: r -> let id = fresh () in let (b, r') = parse_blist r in (BBlock (id, b), r')
+  | "for" :: v :: n :: r -> let id = fresh () in let (b, r') = parse_b r in (BFor (id, n_of v, n_of n, b), r')
+  | "whl" :: r ->
+      let id = fresh () in
+      let (c, r1) = parse_cond r in
+      let (b, r2) = parse_b r1 in (BWhile (id, c, b), r2)
+  | "call{" :: r -> let id = fresh () in let (b, r') = parse_blist r in (BCall (id, b), r')
+  | t :: r -> (BSimple (simple_of t), r)
+  | [] -> failwith "structured statement expected"
+and parse_blist ws = match ws with
+  | "}" :: r -> ([], r)
+  | [] -> failwith "unclosed block"
+  | _ -> let (s, r) = parse_b ws in let (l, r') = parse_blist r in (s :: l, r')
+
 let rec parse_body toks acc =
   match toks with
   | [] -> List.rev acc
+  | "@" :: r -> let (b, r') = parse_b r in parse_body r' (SBody b :: acc)
   | "Y" :: r -> parse_body r (SYield :: acc)
   | "R" :: r -> parse_body r (SReturn :: acc)
   | t :: r when t.[0] = 'L' ->
@@ -106,6 +154,7 @@ let () =
   (try while true do
     let line = input_line stdin in
     if String.trim line <> "" then begin
+      node_ctr := 0;
       let (stepms, funs) = parse_case line in
       let s = ref cinit and n = ref 0 in
       let seen = Hashtbl.create 64 in
@@ -130,6 +179,7 @@ let () =
         end;
         let (s', evs) = cstep funs stepms !s in
         if mode = "trace" && !n < print_cap then List.iter (fun e -> print_endline (show_event e)) evs;
+        if mode = "trace" && !n = print_cap then print_endline "#TRUNC";
         s := s'; incr n
       done;
       incr ncases; nsteps := !nsteps + !n;
